@@ -820,6 +820,17 @@ class Fun:
             if fac.id in ('list', 'dict', 'set'):
                 out.append(('write', c.lineno, d, VALS, [self.alloc(out)]))
             return d
+        if isinstance(fac, ast.Name) and self.is_local(fac.id):
+            # a nested `def name(): return <expr>` without parameters, used like the lambda it replaces
+            defs = [n for n in ast.walk(self.node) if isinstance(n, ast.FunctionDef) and n is not self.node and n.name == fac.id]
+            if len(defs) == 1 and not defs[0].args.args and not defs[0].args.vararg and not defs[0].args.kwarg and not defs[0].args.kwonlyargs:
+                body = [b for b in defs[0].body if not (isinstance(b, ast.Expr) and isinstance(b.value, ast.Constant) and isinstance(b.value.value, str))]
+                if len(body) == 1 and isinstance(body[0], ast.Return) and body[0].value is not None:
+                    child = self.expr(out, body[0].value)
+                    d = self.alloc(out)
+                    if child != self.LEAF:
+                        out.append(('write', c.lineno, d, VALS, [child]))
+                    return d
         self.err(c, 'defaultdict factory')
 
     def bind(self, c, callee, skip_first=0, extra_pos=None):
@@ -1122,7 +1133,7 @@ class Fun:
         for h in handlers:                      # any one of the handlers (or none) may run
             hs = [('if', h, hs)]
         for x in s.body:
-            if not isinstance(x, (ast.Assign, ast.Expr, ast.AugAssign)):
+            if not isinstance(x, (ast.Assign, ast.Expr, ast.AugAssign, ast.FunctionDef)):      # a nested def only binds a closure, like an assignment
                 self.err(x, 'compound statement inside try')
         # every prefix of the body may be followed by a handler
         def chain(i):
